@@ -382,6 +382,22 @@ def main():
                 else:
                     cls[ph] = "junk"
                     jobs.append((cls, to_server_script(rng, cls, 0.0, junk=j), 1))
+    # reply texts with NUL bytes (single, separated, adjacent, shaped like report fields): the reports stay well framed
+    if not a.replay:
+        nul_texts = ["a\0b", "a\0b\0c", "a\0\0r\0\0Kforged acceptance", "\0\0", "x\0\0\0y", "\0r\0K\0"]
+        for txt in nul_texts:
+            for ph, code, c_ in (("mail", 250, "ok"), ("mail", 550, "5"), ("data", 354, "ok"), ("dot", 250, "ok"), ("dot", 451, "4"), ("dot", 554, "5")):
+                cls = {"greet": "ok", "helo": "ok", "mail": "ok", "rcpt": ["ok"], "data": "ok", "dot": "ok"}
+                cls[ph] = c_
+                sc = to_server_script(rng, cls, 0.0)
+                sc[ph] = {"code": code, "text": txt}
+                jobs.append((cls, sc, 1))
+            for rc_, codes_ in ((["5", "5"], (550, 550)), (["ok", "5"], (250, 550)), (["5", "ok"], (550, 250)), (["4", "ok", "5"], (451, 250, 550))):
+                cls = {"greet": "ok", "helo": "ok", "mail": "ok", "rcpt": list(rc_), "data": "ok", "dot": "ok"}
+                sc = to_server_script(rng, cls, 0.0)
+                for i_, cd in enumerate(codes_):
+                    sc["rcpt%d" % i_] = {"code": cd, "text": txt if i_ == 0 else "plain"}
+                jobs.append((cls, sc, len(rc_)))
     # stalls (client time-out) at each phase, and no listener at all
     for ph in ("greet", "helo", "mail", "rcpt0", "data", "dot"):
         cls = {"greet": "ok", "helo": "ok", "mail": "ok", "rcpt": ["ok"], "data": "ok", "dot": "ok"}
